@@ -246,7 +246,32 @@ def to_yaml_block(doc, rng):
             wr.w(key_yaml(k, rng) + ":")
             emit_value(x, path + (k,), depth)
 
+    def block_scalar_ok(x):
+        return (isinstance(x, str) and x != "" and x.strip("\n") != "" and not x.startswith("\n") and not x.endswith("\n\n") and all(ch == "\n" or ch == "\t" or 0x20 <= ord(ch) < 0x7f or 0xa0 <= ord(ch) < 0x2028 or 0x202a <= ord(ch) < 0xd800 for ch in x)
+                and all(not ln.startswith((" ", "\t")) for ln in x.split("\n") if ln))
+
+    def emit_block_scalar(x, path, depth):
+        """literal (|, |-, |+) or folded (>-) block scalar; the chomping indicator is the one that reproduces the model string"""
+        body = x.rstrip("\n")
+        tail = len(x) - len(body)
+        folded = "\n" not in body and rng.random() < 0.3 and tail <= 1
+        ind_ch = ">" if folded else "|"
+        chomp = "-" if tail == 0 else ("" if tail == 1 else "+")
+        wr.mark(jpath(path), "folded" if folded else "literal")
+        wr.w(ind_ch + chomp)
+        if rng.random() < 0.1:
+            wr.w(" # block")
+        wr.w("\n")
+        for ln in body.split("\n"):
+            wr.w((" " * (depth + ind) + ln if ln else "") + "\n")
+        if chomp == "+":
+            wr.w("\n" * (tail - 1))
+
     def emit_value(x, path, depth):
+        if block_scalar_ok(x) and rng.random() < (0.6 if "\n" in x else 0.12):
+            wr.w(" ")
+            emit_block_scalar(x, path, depth)
+            return
         if isinstance(x, dict):
             if not x:
                 wr.w(" {}")
@@ -283,6 +308,9 @@ def to_yaml_block(doc, rng):
             elif isinstance(x, list):
                 wr.w(" []")
                 trailing()
+            elif block_scalar_ok(x) and rng.random() < (0.6 if "\n" in x else 0.12):
+                wr.w(" ")
+                emit_block_scalar(x, path + (i,), depth + 1)
             else:
                 wr.w(" ")
                 scalar_yaml(wr, x, path + (i,), rng, False)
